@@ -65,6 +65,10 @@ func scenUPL(s *sched.Sim, cfg Config, res *Result) {
 	}
 	nameAlphabet := []string{"a.txt", "with space.bin", "ünï-cödé.dat", "q\"uote.txt", "semi;colon.txt", ""}
 	nfile := 0
+	sameNames := s.T.Bool(1, 3)
+	if sameNames {
+		res.Probe("upl.different-files-same-name")
+	}
 	newFile := func() *uplFile {
 		nfile++
 		size := []int{0, 1, 17, 300, 5000, 65536}[s.T.Choose(6)]
@@ -74,7 +78,12 @@ func scenUPL(s *sched.Sim, cfg Config, res *Result) {
 			content[i] = byte(i*31) ^ seedb ^ byte(i>>8)
 		}
 		name := nameAlphabet[s.T.Choose(len(nameAlphabet)-1)]
-		return &uplFile{key: fmt.Sprint(nfile - 1), name: fmt.Sprintf("%d-%s", nfile, name), content: content}
+		fname := fmt.Sprintf("%d-%s", nfile, name)
+		if sameNames {
+			// different files that carry the same file name
+			fname = "same-name.bin"
+		}
+		return &uplFile{key: fmt.Sprint(nfile - 1), name: fname, content: content}
 	}
 	sel := func(field string) string {
 		fd := w.Union.Mutation.Fields.ForName(field)
